@@ -105,6 +105,9 @@ class RealFs(RealVolumeOf, Fs):
     def islink(self, path):
         return os.path.islink(path)
 
+    def islink_or_raise(self, path):
+        return fs.lstat_says_symlink(path)
+
     def has_sticky_bit(self, path):
         return (os.stat(path).st_mode & stat.S_ISVTX) == stat.S_ISVTX
 
